@@ -200,7 +200,7 @@ class _NashMTLWeighting(_Weighting):
             alpha = torch.from_numpy(alpha).to(device=matrix.device, dtype=matrix.dtype)
         else:
             self.step += 1
-            alpha = self.prvs_alpha
+            alpha = torch.from_numpy(self.prvs_alpha).to(device=matrix.device, dtype=matrix.dtype)
 
         if self.max_norm > 0:
             norm = torch.linalg.norm(alpha @ matrix)
